@@ -58,7 +58,12 @@ def codec_roundtrips(ctx):
     for tok in fibkit.TOKENS[1:] + [b'\x00', b'\xff' * 16]:
         ctx.evaluations += 1
         w = pitkit.lp_wrap(inner, token=tok, extra=True)
-        got = enc.parse_lp_packet_v2(w)
+        try:
+            got = enc.parse_lp_packet_v2(w)
+        except Exception as ex:  # noqa  - an envelope with a token of any length is an envelope
+            ctx.violation('C10/parse_lp_packet_v2/pit-token/raised-%s' % type(ex).__name__,
+                          'envelope with a %d-octet PIT token refused: %s' % (len(tok), ex), {'hex': w.hex()})
+            continue
         if got.pit_token is None or bytes(got.pit_token) != tok or bytes(got.fragment) != inner or got.nack is not None:
             ctx.violation('C10/parse_lp_packet_v2/pit-token', 'token %s decoded as %r' % (tok.hex(), got.pit_token), {'hex': w.hex()})
     for fr, odd in (((0, 1), False), ((0, 2), False), ((1, 2), False), ((0, 2), True), ((1, 2), True)):
